@@ -6,7 +6,7 @@
 
 using namespace vh;
 
-static long g2cont_ncases(const std::string& tier) { return tier == "thorough" ? 16000 : 160; }
+static long g2cont_ncases(const std::string& tier) { return tier == "thorough" ? 48000 : 160; }
 
 namespace {
 typedef std::array<int, 4> Q4;
